@@ -133,6 +133,7 @@ struct SimState {
     long fail_vna = 0, fail_yaml = 0;	// k-th (1-based) allocation to fail, 0 = none
     bool fail_vna_sticky = false;	// fail every VNA allocation from fail_vna on
     long fired_vna = 0, fired_yaml = 0;
+    long n_toobig = 0;		// requests above the simulated RAM ceiling (refused, not an injected fault)
     long total_vna = 0, total_yaml = 0;	// over the run
     // stream faults
     FileFaults ff;
@@ -180,6 +181,8 @@ struct Ctx {
     uint64_t interleave = 0xcbf29ce484222325ULL;	// hash of the task-id sequence
     bool nontrivial = false;
     bool strict_enomem = false;	// C12: a call failing under an allocation fault must report ENOMEM
+    bool cb_installed = true;	// C11: the object under test was created with an error function
+    bool c11 = false;		// C11: reporting-discipline oracle enabled (cfg c11)
     std::vector<long> main_allocs;	// per operation: VNA-domain allocations made by fault-armed calls
     long cur_op = -1;
 
@@ -226,6 +229,7 @@ void fault_recovered(Ctx &c, const std::string &what, int first_err, bool alloc_
 	bool lib_fired_ = sim_fault_fired(), lib_alloc_ = sim_alloc_fault_fired(); \
 	lc.done(); \
 	ERRVAR = lc.saved_errno; \
+	c11_auto((c), (what), (FAILED), lc.saved_errno); \
 	if (lib_try_ == 0 && lib_fired_ && (FAILED) && !(c).violated) { lib_pend_err_ = lc.saved_errno; lib_pend_alloc_ = lib_alloc_; fault_failed((c), (what), lc.saved_errno, lib_alloc_); continue; } \
 	if (lib_try_ == 1 && !(FAILED)) fault_recovered((c), (what), lib_pend_err_, lib_pend_alloc_ != 0); \
 	break; \
@@ -245,3 +249,8 @@ void check_ledger_empty(Ctx &c, const char *when);
 
 static const int ERRNO_SENTINEL = 0;
 const char *errno_name(int e);
+enum { C11_MUST = 0, C11_SILENT = 1, C11_MAY = 2 };
+void c11_discipline(Ctx &c, const std::string &site, const char *fn, bool failed, int err, bool installed, int mode);
+// the same with the mode looked up from the function name (per the manual pages) and the
+// "installed" flag taken from c.cb_installed
+void c11_auto(Ctx &c, const char *fn, bool failed, int err);
